@@ -100,6 +100,13 @@ fn parse_findings(spec: &str) -> Vec<(String, Vec<(String, BTreeSet<i32>)>)> {
     }
     for item in spec.split(';') {
         let p: Vec<&str> = item.split('|').collect();
+        if p.len() == 1 {
+            // a pattern that is in the map without any file entry
+            if !out.iter().any(|x| x.0 == p[0]) {
+                out.push((p[0].to_string(), vec![]));
+            }
+            continue;
+        }
         let lines: BTreeSet<i32> = if p[2].is_empty() {
             BTreeSet::new()
         } else {
